@@ -31,7 +31,10 @@
      `co.resume` it produces, SelFire with the handler's first access, SelDisarm (select: disarm + schedule) lazily -
      before the selector thread's next bound event or the resumption of the coroutine, whichever comes first (the
      step commutes with everything other threads can do until then: the coroutine slot is already empty, the
-     operation is still in flight, so nobody else reads the timer cell).
+     operation is still in flight, so nobody else reads the timer cell); likewise the second half of a cancel
+     (CancelNull / SCan4: null the timer entry, schedule) before the resumption of the coroutine or, for the kernel
+     half, at its `co.subscribed` - as late as possible: a timeout handler that read `event_data` before the null and
+     leaves its mark after the take is then followed by SelFire / SelMark / SelHnd in that order.
 
    Bookkeeping that is not part of the model (`aux`): thread modes, coroutine identities, the normalised object ids
    of io_flag words and coroutine slots (bound to a descriptor at first sight and compared ever after; the binding of a
@@ -64,7 +67,7 @@ Record aux := {
   cpend : nat -> option nat;     (* thread -> scenario index announced by io.cancel *)
   ctgt : nat -> option nat;      (* thread -> model actor it is cancelling *)
   precan : list nat;             (* scenario indices cancelled before they announced themselves *)
-  cnull : nat -> option nat;     (* descriptor -> timer entry that a cancel is about to null / has just nulled *)
+  cnull : nat -> option nat;     (* descriptor -> the timer entry a cancel has nulled (second half of the cancel played) *)
   seen : list nat                (* model actors that started an operation *)
 }.
 (* `acap`: the capacity K1 of the kernel object the trace is checked against.  The scenario may announce it with its
@@ -144,6 +147,8 @@ Definition flush (m : st) (x : aux) (t : nat) : list action :=
 Definition flush_for (m : st) (a : nat) : list action :=
   match ahome (A m a) with
   | HSel g => match Sel m g with SEvT _ c => if Nat.eqb c a then [SelDisarm g false] else [] | _ => [] end
+  | HCan b => match Cn m b with Cn3 _ c => if Nat.eqb c a then [CancelNull b] else [] | _ => [] end
+  | HKCan k => match spc_ (Sb m k) with SCan4 _ c => if Nat.eqb c a then [Sub k false] else [] | _ => [] end
   | _ => []
   end.
 
@@ -200,7 +205,11 @@ Definition mkplan (s : ast) (e : list Z) : plan :=
             | _ => None
             end
         | _ =>
-            if pc_eqb (apc (A m c)) Susp then acts x2 (flush_for m c ++ [Resume c])
+            if pc_eqb (apc (A m c)) Susp then
+              acts (match ahome (A m c) with
+                    | HCan _ | HKCan _ => set_cnull x2 (upd (cnull x2) (afd (A m c)) (tmr m (afd (A m c))))
+                    | _ => x2 end)
+                   (flush_for m c ++ [Resume c])
             else obs x2 (outside (apc (A m c)))
         end
     | 2 => (* co.yield c: the thread now runs the kernel half *)
@@ -221,7 +230,9 @@ Definition mkplan (s : ast) (e : list Z) : plan :=
     | 3 => (* co.subscribed *)
         let x' := set_tm x (upd (tm x) t MNone) in
         match tm x t with
-        | MKer k => obs x' (is_done (spc_ (Sb m k)))
+        | MKer k => actsp (match spc_ (Sb m k) with SCan4 f' _ => set_cnull x' (upd (cnull x') f' (tmr m f')) | _ => x' end)
+                          (match spc_ (Sb m k) with SCan4 _ _ => [Sub k false] | _ => [] end)
+                          (fun m' => is_done (spc_ (Sb m' k)))
         | _ => ok x'
         end
     | 4 => (* co.panic: the coroutine is gone, the thread is a plain worker again *)
@@ -405,14 +416,12 @@ Definition mkplan (s : ast) (e : list Z) : plan :=
     | 32 => (* CancelIoImpl::cancel: e.co.take() -> some *)
         match tm x t with
         | MKer k => match spc_ (Sb m k) with
-                    | SCan3 f' => chk (Bool.eqb (znz v) (is_some (co m f')))
-                                      (acts (if znz v then set_cnull x (upd (cnull x) f' (tmr m f')) else x) [Sub k false])
+                    | SCan3 f' => chk (Bool.eqb (znz v) (is_some (co m f'))) (acts x [Sub k false])
                     | _ => None end
         | _ =>
             match ctgt x t with
             | Some c => match Cn m c with
-                        | Cn2 f' => chk (Bool.eqb (znz v) (is_some (co m f')))
-                                        (acts (if znz v then set_cnull x (upd (cnull x) f' (tmr m f')) else x) [CancelTake c])
+                        | Cn2 f' => chk (Bool.eqb (znz v) (is_some (co m f'))) (acts x [CancelTake c])
                         | _ => None end
             | None => ok x
             end
@@ -453,20 +462,22 @@ Definition mkplan (s : ast) (e : list Z) : plan :=
                           (flush m x t ++ (if (now m <? tdl (T m e))%nat then [Tick (tdl (T m e) - now m)] else []) ++
                            [SelFire f' e; SelMark f']))
             | Some sth, None =>
-                (* The handler looked at `event_data` of a due entry before a cancel (CancelIoImpl::cancel, on another
-                   thread) nulled it, and leaves its mark after the cancel took the coroutine.  The model does take and
-                   null in ONE step (CancelTake / SCan3), so this interleaving is not one of its runs; what the code does
-                   here - io_flag set, nothing taken - is what a spurious readiness report does, and is played as one
-                   (K4), after the silent pop of the nulled entry at its deadline.  See the report: IoModel folds two
-                   accesses of `cancel` that the selector thread can get in between. *)
+                (* The handler read `event_data` of a due entry before a cancel nulled it, and leaves its mark only after
+                   the cancelled coroutine has been resumed (the selector thread was held up inside the handler for that
+                   long).  The model run is SelFire - CancelNull - Resume - ... - SelMark - SelHnd, but the acceptor had
+                   to play CancelNull for the Resume before it could know of the SelFire.  It catches up with steps that
+                   end in the same model state: the silent pop of the nulled entry at its deadline, and a readiness report
+                   (io_flag set, nothing taken, the kernel's pending event as before).  In between the selector state and
+                   the entry differ from that run (SIdle / armed-nulled instead of THnd / popped); nobody but the selector
+                   thread reads them - except the guard of the restricted interleaving, for which this is rejected *)
                 match cnull x f' with
                 | Some e =>
                     match tstate (T m e), tev (T m e) with
                     | TArmed, None =>
-                        chk (Bool.eqb (znz v) (flag m f'))
+                        chk (Bool.eqb (znz v) (flag m f') && negb calm)
                             (acts (set_cnull (set_sel x sth (upd (selcur x) t (Some f')) (upd (selpre x) t None)) (upd (cnull x) f' None))
                                   (flush m x t ++ (if (now m <? tdl (T m e))%nat then [Tick (tdl (T m e) - now m)] else []) ++
-                                   [SelFire f' e] ++ (if pend m f' then [] else [Spurious f']) ++ [SelEvent f' f']))
+                                   [SelFire f' e; Spurious f'; SelEvent f' f'] ++ (if pend m f' then [Spurious f'] else [])))
                     | _, _ => None
                     end
                 | None => None
